@@ -139,7 +139,7 @@ fn ws_positions(s: &str) -> Vec<usize> {
 
 pub fn build(tier: Tier) -> Check<'static> {
     let mut c = Check::new("C14", tier, "6/C14");
-    c.rule = "accepted seed or default sentence of a reference-grammar rule (preprocessor fixed points only) x every token boundary x 3 bad bytes; x every single bracket / block keyword deleted; the same through `include; mutants through all three strict routes to a tree x ignore_include; 8 pp programs x every line start x 9 lexical faults; non-trivial = every mutant (distinct by construction)".into();
+    c.rule = "accepted seed or default sentence of a reference-grammar rule or design elements inside a `begin_keywords region of each of the 8 versions (preprocessor fixed points only) x every token boundary x 3 bad bytes; x every single bracket / block keyword deleted; the same through `include; mutants through all three strict routes to a tree x ignore_include; 8 pp programs x every line start x 9 lexical faults; non-trivial = every mutant (distinct by construction)".into();
     c.assumptions = vec![
         "every sentence of the grammar is balanced in ( ) [ ] { } characters outside strings, comments and escaped identifiers, and in begin/end, fork/join*, case/endcase and the other block keyword pairs; hence deleting one of them cannot yield a sentence".into(),
         "the end of an escaped identifier is not a token boundary (any non-blank byte extends it)".into(),
@@ -156,13 +156,33 @@ pub fn build(tier: Tier) -> Check<'static> {
             }
         }
     }
+    {
+        // the same holds under every keyword set: programs inside a `begin_keywords region (ids from 200000)
+        let bodies: [(&str, bool); 5] = [
+            ("module m;\nendmodule\nmodule n;\nendmodule\n", false),
+            ("module m;\nfunction f;\ninput a;\nbegin\nend\nendfunction\nendmodule\n", false),
+            ("module m;\ntask t;\nbegin\nend\nendtask\ninitial begin\nend\nendmodule\n", false),
+            ("module m;\nendmodule\npackage p;\nendpackage\nprogram q;\nendprogram\n", true),
+            ("interface i;\nendinterface\nclass c;\nendclass\nmodule m;\nendmodule\n", true),
+        ];
+        let mut k = 0;
+        for v in crate::models::kwref::VERSIONS.iter() {
+            for (body, sv_only) in bodies.iter() {
+                if *sv_only && !v.starts_with("1800") {
+                    continue;
+                }
+                seeds.push(corpus::Seed { id: 200_000 + k, kind: format!("sv region:{}", v), text: format!("`begin_keywords \"{}\"\n{}`end_keywords\nmodule z;\nendmodule\n", v, body) });
+                k += 1;
+            }
+        }
+    }
     let seeds = Arc::new(seeds);
     let lim = tier.pick(260, 1 << 30);
     // tables
     let mut bad_tab: Vec<(usize, usize)> = vec![];
     let mut del_tab: Vec<(usize, usize)> = vec![];
     for (si, seed) in seeds.iter().enumerate() {
-        if seed.is_lib() || seed.text.len() >= lim {
+        if seed.is_lib() || (seed.text.len() >= lim && seed.id < 200_000) {
             continue;
         }
         if let Some(b) = base_of(&seed.text, false) {
